@@ -7,13 +7,24 @@
     "request too long" branch (a [continue] of the INNER loop), the GET test
     (a [continue] of the OUTER loop, which drops the connection), the handler
     result, [write_all], and every [?] (leaves [main], the process exits).
+    Also kept: the response buffer [let mut buf = String::with_capacity(4 * 1024)]
+    that is declared OUTSIDE the accept loop and therefore lives across
+    requests ([rbuf]): [buf.clear()] in front of every [handler(&mut buf, ..)]
+    call, the handler APPENDING to it ([format_response] only appends), and
+    [write_all(buf.as_bytes())] / [write_all(ERROR_REPONSE)].  Every byte string
+    that a [write_all] delivered is recorded in [wire].
     Abstracted: what the kernel / the peer / the observation socket do is an
-    input script (the results returned by [read], [handler], [write_all]).
+    input script (the results returned by [read], [handler] - together with the
+    bytes it appended to the buffer -, [write_all]).
 
     [step_fixed] is the code AS IT IS since the F19 repair (commit b7381c9);
     it is the model tied to the binary ([step_impl]).
     [step_before_fix] is the loop as it was before that commit, kept only as a
-    historic definition for the spin / exit lemmas. *)
+    historic definition for the spin / exit lemmas (control flow only: it
+    leaves [rbuf] and [wire] alone).
+    [step_clear_after_write] is a COUNTERFACTUAL loop (never the code of /repo):
+    "clear the buffer after a successful write" instead of "before the handler";
+    it exists only to show that the freshness theorems tell the two apart. *)
 From SV Require Export Base.Prelude.
 
 (** * Abstract I/O scripts *)
@@ -27,8 +38,15 @@ Inductive rd :=
 | REof
 | RErr.
 
-Inductive hres := HOk | HErr.      (* handler(..) -> Ok(()) | Err(e) *)
+(** handler(&mut buf, ..) -> Ok(()) | Err(e), together with the bytes it
+    APPENDED to [buf] before returning: on Ok the complete formatted response
+    for the observation JSON served for THIS request ([format_response]); on Err
+    whatever had been formatted before the failure (nothing when connecting,
+    reading or parsing failed). *)
+Inductive hres := HOk (out : list Z) | HErr (out : list Z).
 Inductive wres := WOk | WErr.      (* write_all(..) -> Ok(()) | Err(e) *)
+
+Definition hnd_out (h : hres) : list Z := match h with HOk o => o | HErr o => o end.
 
 (** A connection script.  When [c_reads] is exhausted the peer has gone away
     ([Ok(0)] for ever, as [REof]).  [c_gone]: the client does not look at the
@@ -68,8 +86,24 @@ Inductive state :=
 Record cfg := mkCfg {
   st : state;
   pending : list item;      (* future results of accept *)
-  log : list cout           (* outcomes of the connections finished so far *)
+  log : list cout;          (* outcomes of the connections finished so far *)
+  rbuf : list Z;            (* the String [buf] declared before the accept loop *)
+  wire : list (list Z)      (* byte strings delivered by successful write_all calls, in order *)
 }.
+
+(** const ERROR_REPONSE: "HTTP/1.1 500 Internal Server Error\r\ncontent-type: text/plain\r\ncontent-length: 0\r\n\r\n" *)
+Definition ERR_BYTES : list Z :=
+  [72; 84; 84; 80; 47; 49; 46; 49; 32; 53; 48; 48; 32; 73; 110; 116; 101; 114; 110; 97; 108; 32;
+   83; 101; 114; 118; 101; 114; 32; 69; 114; 114; 111; 114; 13; 10;
+   99; 111; 110; 116; 101; 110; 116; 45; 116; 121; 112; 101; 58; 32; 116; 101; 120; 116; 47; 112; 108; 97; 105; 110; 13; 10;
+   99; 111; 110; 116; 101; 110; 116; 45; 108; 101; 110; 103; 116; 104; 58; 32; 48; 13; 10; 13; 10].
+
+(** buf.clear() *)
+Definition buf_clear (b : list Z) : list Z := [].
+(** handler(&mut buf, ..): only ever appends (format_response uses write_str / push_str) *)
+Definition handler_appends (h : hres) (b : list Z) : list Z := b ++ hnd_out h.
+(** The argument of write_all: [Ok(()) => buf.as_bytes()], [Err(e) => ERROR_REPONSE] *)
+Definition to_write (status : Z) (b : list Z) : list Z := if status =? 200 then b else ERR_BYTES.
 
 (** buf[0..bytes_read].windows(4).any(|w| w == b"\r\n\r\n") *)
 Fixpoint has_term (l : list Z) : bool :=
@@ -112,7 +146,7 @@ Definition do_read (rs : list rd) (buf : list Z) : option (list rd * list Z) :=
       end
   end.
 
-Definition status_of (h : hres) : Z := match h with HOk => 200 | HErr => 500 end.
+Definition status_of (h : hres) : Z := match h with HOk _ => 200 | HErr _ => 500 end.
 
 (** ** HISTORIC: the loop before the F19 repair (not today's code) *)
 Definition step_before_fix (c : cfg) : cfg :=
@@ -120,28 +154,28 @@ Definition step_before_fix (c : cfg) : cfg :=
   | Accepting =>
       match pending c with
       | [] => c                                              (* blocked in accept: idle *)
-      | AcceptErr :: p => mkCfg Exited p (log c)             (* accept().await? *)
-      | Conn k :: p => mkCfg (Reading (c_reads k) (c_hnd k) (c_wr k) []) p (log c)
+      | AcceptErr :: p => mkCfg Exited p (log c) (rbuf c) (wire c)             (* accept().await? *)
+      | Conn k :: p => mkCfg (Reading (c_reads k) (c_hnd k) (c_wr k) []) p (log c) (rbuf c) (wire c)
       end
   | Reading rs h w buf =>
       match do_read rs buf with
-      | None => mkCfg Exited (pending c) (log c)             (* read(..).await? *)
+      | None => mkCfg Exited (pending c) (log c) (rbuf c) (wire c)             (* read(..).await? *)
       | Some (rs', buf') =>
           if has_term buf' then                              (* break *)
             if starts_get buf' then
-              mkCfg (Responding (status_of h) w) (pending c) (log c)   (* handler called *)
+              mkCfg (Responding (status_of h) w) (pending c) (log c) (rbuf c) (wire c)   (* handler called *)
             else
-              mkCfg Accepting (pending c) (log c ++ [ODropped])        (* continue (outer): stream dropped *)
+              mkCfg Accepting (pending c) (log c ++ [ODropped]) (rbuf c) (wire c)        (* continue (outer): stream dropped *)
           else if (BUFn <=? length buf')%nat then
             (* warn "request too long"; continue  -- of the INNER loop *)
-            mkCfg (Reading rs' h w buf') (pending c) (log c)
+            mkCfg (Reading rs' h w buf') (pending c) (log c) (rbuf c) (wire c)
           else
-            mkCfg (Reading rs' h w buf') (pending c) (log c)
+            mkCfg (Reading rs' h w buf') (pending c) (log c) (rbuf c) (wire c)
       end
   | Responding s w =>
       match w with
-      | WOk => mkCfg Accepting (pending c) (log c ++ [OStatus s])      (* end of loop body: stream dropped *)
-      | WErr => mkCfg Exited (pending c) (log c)                       (* write_all(..).await? *)
+      | WOk => mkCfg Accepting (pending c) (log c ++ [OStatus s]) (rbuf c) (wire c)      (* end of loop body: stream dropped *)
+      | WErr => mkCfg Exited (pending c) (log c) (rbuf c) (wire c)                       (* write_all(..).await? *)
       end
   | Exited => c
   end.
@@ -149,20 +183,66 @@ Definition step_before_fix (c : cfg) : cfg :=
 (** ** The code as it is (exporter.rs since b7381c9)
     EOF before a complete request -> drop the connection, accept the next;
     oversize request -> drop, accept the next; read or write error on a
-    connection -> log, accept the next; only [accept] failing leaves [main]. *)
+    connection -> log, accept the next; only [accept] failing leaves [main].
+    Response buffer: [buf.clear(); handler(&mut buf, ..)] - the buffer is emptied
+    in front of EVERY handler call, whatever happened to the previous response;
+    a failed write leaves the old response in [rbuf] until then. *)
 Definition step_fixed (c : cfg) : cfg :=
   match st c with
   | Accepting =>
       match pending c with
       | [] => c
-      | AcceptErr :: p => mkCfg Exited p (log c)
-      | Conn k :: p => mkCfg (Reading (c_reads k) (c_hnd k) (c_wr k) []) p (log c)
+      | AcceptErr :: p => mkCfg Exited p (log c) (rbuf c) (wire c)
+      | Conn k :: p => mkCfg (Reading (c_reads k) (c_hnd k) (c_wr k) []) p (log c) (rbuf c) (wire c)
       end
   | Reading rs h w buf =>
       match rs with
-      | [] => mkCfg Accepting (pending c) (log c ++ [ODropped])        (* Ok(0): continue 'accept *)
-      | REof :: _ => mkCfg Accepting (pending c) (log c ++ [ODropped]) (* Ok(0): continue 'accept *)
-      | RErr :: _ => mkCfg Accepting (pending c) (log c ++ [ODropped]) (* Err(e): warn; continue 'accept *)
+      | [] => mkCfg Accepting (pending c) (log c ++ [ODropped]) (rbuf c) (wire c)        (* Ok(0): continue 'accept *)
+      | REof :: _ => mkCfg Accepting (pending c) (log c ++ [ODropped]) (rbuf c) (wire c) (* Ok(0): continue 'accept *)
+      | RErr :: _ => mkCfg Accepting (pending c) (log c ++ [ODropped]) (rbuf c) (wire c) (* Err(e): warn; continue 'accept *)
+      | RChunk b bs :: rest =>
+          let space := (BUFn - length buf)%nat in
+          let buf' := buf ++ firstn space (b :: bs) in
+          let rs' := mk_chunk (skipn space (b :: bs)) rest in
+          if has_term buf' then
+            if starts_get buf' then
+              (* buf.clear(); let written = match handler(&mut buf, ..).await { .. *)
+              mkCfg (Responding (status_of h) w) (pending c) (log c)
+                    (handler_appends h (buf_clear (rbuf c))) (wire c)
+            else
+              mkCfg Accepting (pending c) (log c ++ [ODropped]) (rbuf c) (wire c)
+          else if (BUFn <=? length buf')%nat then
+            mkCfg Accepting (pending c) (log c ++ [ODropped]) (rbuf c) (wire c)          (* too long: continue 'accept *)
+          else
+            mkCfg (Reading rs' h w buf') (pending c) (log c) (rbuf c) (wire c)
+      end
+  | Responding s w =>
+      match w with
+      | WOk => mkCfg Accepting (pending c) (log c ++ [OStatus s]) (rbuf c)
+                     (wire c ++ [to_write s (rbuf c)])
+      | WErr => mkCfg Accepting (pending c) (log c ++ [ODropped]) (rbuf c) (wire c)      (* Err(e): warn; next accept *)
+      end
+  | Exited => c
+  end.
+
+(** ** COUNTERFACTUAL (not the code of /repo): "clear after use"
+    The same loop with [buf.clear()] moved from in front of the handler call to
+    "after a successful write" ([match written { Ok(()) => buf.clear(), Err(e) => warn }]).
+    Status codes and liveness are the same as [step_fixed]'s; what reaches the
+    clients is not (lemma [clear_after_write_refuted]). *)
+Definition step_clear_after_write (c : cfg) : cfg :=
+  match st c with
+  | Accepting =>
+      match pending c with
+      | [] => c
+      | AcceptErr :: p => mkCfg Exited p (log c) (rbuf c) (wire c)
+      | Conn k :: p => mkCfg (Reading (c_reads k) (c_hnd k) (c_wr k) []) p (log c) (rbuf c) (wire c)
+      end
+  | Reading rs h w buf =>
+      match rs with
+      | [] => mkCfg Accepting (pending c) (log c ++ [ODropped]) (rbuf c) (wire c)
+      | REof :: _ => mkCfg Accepting (pending c) (log c ++ [ODropped]) (rbuf c) (wire c)
+      | RErr :: _ => mkCfg Accepting (pending c) (log c ++ [ODropped]) (rbuf c) (wire c)
       | RChunk b bs :: rest =>
           let space := (BUFn - length buf)%nat in
           let buf' := buf ++ firstn space (b :: bs) in
@@ -170,17 +250,19 @@ Definition step_fixed (c : cfg) : cfg :=
           if has_term buf' then
             if starts_get buf' then
               mkCfg (Responding (status_of h) w) (pending c) (log c)
+                    (handler_appends h (rbuf c)) (wire c)                 (* no clear here *)
             else
-              mkCfg Accepting (pending c) (log c ++ [ODropped])
+              mkCfg Accepting (pending c) (log c ++ [ODropped]) (rbuf c) (wire c)
           else if (BUFn <=? length buf')%nat then
-            mkCfg Accepting (pending c) (log c ++ [ODropped])          (* too long: continue 'accept *)
+            mkCfg Accepting (pending c) (log c ++ [ODropped]) (rbuf c) (wire c)
           else
-            mkCfg (Reading rs' h w buf') (pending c) (log c)
+            mkCfg (Reading rs' h w buf') (pending c) (log c) (rbuf c) (wire c)
       end
   | Responding s w =>
       match w with
-      | WOk => mkCfg Accepting (pending c) (log c ++ [OStatus s])
-      | WErr => mkCfg Accepting (pending c) (log c ++ [ODropped])      (* Err(e): warn; next accept *)
+      | WOk => mkCfg Accepting (pending c) (log c ++ [OStatus s]) (buf_clear (rbuf c))   (* cleared only here *)
+                     (wire c ++ [to_write s (rbuf c)])
+      | WErr => mkCfg Accepting (pending c) (log c ++ [ODropped]) (rbuf c) (wire c)
       end
   | Exited => c
   end.
@@ -193,7 +275,7 @@ Fixpoint iter {A} (n : nat) (f : A -> A) (s : A) : A :=
   | S n' => iter n' f (f s)
   end.
 
-Definition init (items : list item) : cfg := mkCfg Accepting items [].
+Definition init (items : list item) : cfg := mkCfg Accepting items [] [] [].
 
 (** Step budget: accept + one step per script element + the response. *)
 Definition item_cost (i : item) : nat :=
@@ -230,3 +312,8 @@ Definition run_with (stp : cfg -> cfg) (items : list item) : list cout * final :
 Definition step_impl : cfg -> cfg := step_fixed.
 
 Definition run (items : list item) : list cout * final := run_with step_impl items.
+
+(** Everything that reached a client during the run, in order. *)
+Definition run_wire_with (stp : cfg -> cfg) (items : list item) : list (list Z) :=
+  wire (iter (bound items) stp (init items)).
+Definition run_wire (items : list item) : list (list Z) := run_wire_with step_impl items.
